@@ -374,8 +374,9 @@ Fixpoint annots_okb (shapes : list fshape) (texts : list textelem) (annots : lis
     if text_must shapes t then
       match annots with a :: ra => annot_is t a && annots_okb shapes r ra | [] => false end
     else if text_mustnot shapes t then annots_okb shapes r annots
-    else match annots with
-         | a :: ra => if annot_is t a then annots_okb shapes r ra else annots_okb shapes r annots
+    else (* unspecified: the text may be an annotation (then it is the next one) or not *)
+         match annots with
+         | a :: ra => (annot_is t a && annots_okb shapes r ra) || annots_okb shapes r annots
          | [] => annots_okb shapes r annots
          end
   end.
